@@ -165,3 +165,33 @@ Proof.
   split; [exact E|]. rewrite E. apply sb_length.
 Qed.
 End Subsample.
+
+(* ---- the number of chunks is the `chunk_count` the encoders divide their progress reports by:
+   usize::div_ceil(pixels, buffer pixels) for the whole-image chunking, per row for the dither / sub-sampled encoders *)
+Section Count.
+Variables (X : Type) (n : nat).
+Hypothesis Hn : 1 <= n.
+Lemma chunks_fuel_length : forall fuel (l : list X), length l <= fuel -> length (chunks_fuel X fuel n l) = (length l + n - 1) / n.
+Proof.
+  induction fuel as [|fuel IH]; intros l Hl.
+  - destruct l; [|simpl in Hl; lia]. cbn. symmetry. apply Nat.div_small. lia.
+  - destruct l as [|x l]; [cbn; symmetry; apply Nat.div_small; lia|]. cbn [EncChunks.chunks_fuel length].
+    rewrite IH by (rewrite skipn_length; cbn [length] in *; lia). rewrite skipn_length. cbn [length].
+    destruct (Nat.le_gt_cases (S (length l)) n) as [Hle|Hgt].
+    + replace (S (length l) - n) with 0 by lia. cbn [Nat.add]. rewrite (Nat.div_small (n - 1) n) by lia.
+      assert (H : 1 = (S (length l) + n - 1) / n) by (apply (Nat.div_unique (S (length l) + n - 1) n 1 (S (length l) - 1)); lia).
+      replace (S (length l + n) - 1) with (S (length l) + n - 1) by lia. exact H.
+    + replace (S (length l) + n - 1) with (S (length l) - n + n - 1 + 1 * n) by lia. rewrite Nat.div_add by lia. lia.
+Qed.
+Theorem chunk_count_whole (rows : list (list X)) : length (fec_contiguous X n rows) = (length (concat rows) + n - 1) / n.
+Proof. unfold fec_contiguous, EncChunks.chunks. apply chunks_fuel_length. lia. Qed.
+Theorem chunk_count_rows (rows : list (list X)) w : Forall (fun r => length r = w) rows ->
+  length (concat (map (EncChunks.chunks X n) rows)) = length rows * ((w + n - 1) / n).
+Proof.
+  intros HF. induction rows as [|r rows IH]; [reflexivity|]. apply Forall_cons_iff in HF. destruct HF as [Hr HF].
+  cbn [map concat length]. rewrite app_length, IH by assumption. unfold EncChunks.chunks at 1. rewrite chunks_fuel_length by lia. rewrite Hr. lia.
+Qed.
+(* a report `chunk_index / chunk_count` made before chunk `chunk_index` is processed is below 100% *)
+Theorem report_below_one (count index : nat) : index < count -> index * 1 < count * 1 /\ 0 <= index.
+Proof. lia. Qed.
+End Count.
